@@ -135,26 +135,30 @@ _mk_obstacle(2, "quick")
 _mk_obstacle(3, "thorough")
 
 
-@obligation("C11", "history", functions=F, bounds="update_initial_state applied n = 0..5 times with max_history_length in 1..4 (both symbolic)")
+@obligation("C11", "history", functions=F, max_paths={"quick": 4000, "thorough": 20000},
+            bounds="update_initial_state applied n = 0..5 times; max_history_length m1 in 1..4 for the first k updates, m2 in 1..4 "
+                   "afterwards (n, k, m1, m2 symbolic)")
 def history(V):
     warnings.filterwarnings("ignore")
     shape = Rectangle(4.0, 2.0)
     o = DynamicObstacle(5, ObstacleType.CAR, shape, fx.init_state(0, 0.0, 0.0))
     n = V.choice("n_updates", 6)
-    m = 1 + V.choice("max_history_length_minus_1", 4)
+    m1 = 1 + V.choice("max_history_length_1_minus_1", 4)
+    m2 = 1 + V.choice("max_history_length_2_minus_1", 4)
+    k = V.choice("switch_after", n + 1)
     xs = [V.real(f"x{i}", -B, B) for i in range(n)]
+    exp_t, exp_x, exp_c = [], [], []
+    prev_t, prev_x, prev_c = 0, 0.0, None
     for i in range(n):
+        m = m1 if i < k else m2
         o.update_initial_state(fx.init_state(i + 1, xs[i], 0.0), None, {i}, {i, 100}, max_history_length=m)
-    keep = min(n, m)
+        exp_t, exp_x, exp_c = (exp_t + [prev_t])[-m:], (exp_x + [prev_x])[-m:], (exp_c + [prev_c])[-m:]
+        prev_t, prev_x, prev_c = i + 1, xs[i], {i}
     V.prove("history lists have equal length", len(o.history) == len(o.signal_history) == len(o.center_lanelet_ids_history) ==
-            len(o.shape_lanelet_ids_history) == keep)
-    # previous states in order: the states with time steps n-keep .. n-1
-    V.prove("history keeps the most recent previous states in order",
-            [s.time_step for s in o.history] == list(range(n - keep, n)))
-    exp_x = ([0.0] + xs)[n - keep:n]
+            len(o.shape_lanelet_ids_history) == len(exp_t))
+    V.prove("history keeps the most recent previous states in order", [s.time_step for s in o.history] == exp_t)
     V.prove("history states are the previous initial states", V.And([V.eq(s.position[0], e) for s, e in zip(o.history, exp_x)]))
-    V.prove("lanelet-id histories follow the same window",
-            o.center_lanelet_ids_history == ([None] + [{i} for i in range(n)])[n - keep:n])
+    V.prove("lanelet-id histories follow the same window", o.center_lanelet_ids_history == exp_c)
     V.prove("update invalidates the prediction", n == 0 or o.prediction is None)
 
 
@@ -168,15 +172,19 @@ def net3():
 def _mk_network(k, tier, with_shape):
     @obligation("C11", f"network.k{k}{'.shape' if with_shape else ''}", tier=tier, functions=F, max_paths={"quick": 6000, "thorough": 60000},
                 bounds=f"programs of {k} operations over {{query, translate (symbolic vector), rotate by a quarter turn, add a lanelet, "
-                       "remove a lanelet}} on a 3-lanelet network; symbolic query point"
+                       "remove a lanelet, remove without index rebuild + add}} on a 3-lanelet network; symbolic query point"
                        + (" and a 1x1 query rectangle around it" if with_shape else ""))
     def ob(V):
         warnings.filterwarnings("ignore")
         net = net3()
         q = (V.real("qx", -40, 40), V.real("qy", -40, 40))
         for step in range(k):
-            op = V.choice(f"op{step}", 5)
-            if op == 0:
+            op = V.choice(f"op{step}", 6)
+            if op == 5:
+                # remove without rebuilding the index, then add (which rebuilds it)
+                net.remove_lanelet(1, rtree=False)
+                net.add_lanelet(fx.straight_lanelet(8 + step, 0.0, -5.0))
+            elif op == 0:
                 net.find_lanelet_by_position([np.array([q[0], q[1]])])
             elif op == 1:
                 net.translate_rotate(np.array([V.real(f"tx{step}", -20, 20), V.real(f"ty{step}", -20, 20)]), 0.0)
